@@ -347,9 +347,11 @@ def H(h):
     return float.fromhex(h)
 
 
-def feed_rs(rs, xs, chunks):
+def feed_rs(rs, xs, chunks, between=None):
     pos = 0
     for size, mode in chunks:
+        if between is not None:
+            between()
         part = xs[pos:pos + size]
         pos += size
         if mode == "one":
@@ -374,8 +376,14 @@ def run_seq(case, ratios):
         r1.update(x)
     ys = [xs[i] for i in case["perm"]]
     r2 = RunningStatistics()
-    feed_rs(r2, ys, case["chunks"])
+    # a bystander accumulator, created later and fed in between: objects are independent
+    by = RunningStatistics()
+    feed_rs(r2, ys, case["chunks"], between=lambda: by.update(7.5))
     bad = []
+    nb = len(case["chunks"])
+    if by.count != nb or (nb and (by.mean != 7.5 or by.M2 != 0.0)):
+        bad.append(("objects-share-state", f"a second RunningStatistics fed {nb} times the value 7.5 reports count "
+                    f"{by.count}, mean {by.mean}, M2 {by.M2}"))
     for tag, r, fed in (("", r1, xs), ("permuted-chunked-", r2, ys)):
         bad += check_stats(tag, fed, r.count, r.mean, r.var, r.std, r.err, ratios)
     sizes = [s for s, _ in case["chunks"]]
@@ -404,8 +412,10 @@ def run_cov(case, ratios):
         xs, ys = [H(h) for h in case["xs"]], [H(h) for h in case["ys"]]
         n = min(len(xs), len(ys))
         rc = RunningCovariance()
+        by = RunningCovariance()           # a bystander, created later and fed in between
         pos = 0
         for size, mode in case["chunks"]:
+            by.update(7.5, -2.5)
             if mode == "one":
                 for a, b in zip(xs[pos:pos + size], ys[pos:pos + size]):
                     rc.update(a, b)
@@ -413,6 +423,10 @@ def run_cov(case, ratios):
                 last = pos + size == n
                 rc.update_from_it(xs[pos:] if last else xs[pos:pos + size], ys[pos:pos + size])
             pos += size
+        nb = len(case["chunks"])
+        if by.count != nb or (nb and (by.xmean != 7.5 or by.ymean != -2.5 or by.C != 0.0)):
+            bad.append(("objects-share-state", f"a second RunningCovariance fed {nb} times (7.5, -2.5) reports count "
+                        f"{by.count}, means {by.xmean}, {by.ymean}, C {by.C}"))
         seen = [rc.count, enc(rc.xmean), enc(rc.ymean), enc(rc.C), enc(rc.covar)]
         expr = (f"(let s := update_cov_from_it opsF (cov_init opsF) {flist(xs)} {flist(ys)} in "
                 f"VL [VZ (Z.of_nat (ccount s)); enc (xmean s); enc (ymean s); enc (CC s); enc (covar opsF s)"
@@ -430,8 +444,10 @@ def run_cov(case, ratios):
         series = [[H(h) for h in s] for s in case["series"]]
         n = case["n"]
         rcm = RunningCovarianceMatrix(k)
+        by = RunningCovarianceMatrix(k)    # a bystander of the same size, created later and fed in between
         pos, mchunks = 0, []
         for size, it in case["chunks"]:
+            by.update(*[7.5 + i for i in range(k)])
             rows = [[s[r] for s in series] for r in range(pos, pos + size)]
             if it:
                 rcm.update_from_it(*[s[pos:pos + size] for s in series])
@@ -445,6 +461,12 @@ def run_cov(case, ratios):
                 # a matrix read now is the statistics of the samples seen SO FAR, also after later updates / reads
                 early = rcm.covar_matrix
                 early_vals = [[enc(early[i, j]) for j in range(k)] for i in range(k)]
+        nb = len(case["chunks"])
+        bym = by.covar_matrix if nb else None
+        if by.count != nb or (nb and (any(bym[i, j] != 0.0 for i in range(k) for j in range(k))
+                                      or any(by.rcs[i, i].xmean != 7.5 + i for i in range(k)))):
+            bad.append(("objects-share-state", f"a second RunningCovarianceMatrix fed {nb} identical rows reports count "
+                        f"{by.count} and covariance matrix {None if bym is None else bym.tolist()}"))
         cm = rcm.covar_matrix
         seen = [[[i, j, [rc.count, enc(rc.xmean), enc(rc.ymean), enc(rc.C)]] for (i, j), rc in rcm.rcs.items()],
                 [[enc(cm[i, j]) for j in range(k)] for i in range(k)], rcm.count]
